@@ -72,20 +72,26 @@ ASSUMPTIONS = [
     "the mock AtomicData returns plain Python callables (n_e, T_e) -> rate; real rate objects are called the same way",
     "rates are strictly positive (except the one deliberately vanishing CX rate): the steady state is then unique and is the "
     "detailed-balance recurrence",
-    "lsq_linear (default tol 1e-10) is accepted within 1e-8 absolute on fractions and 1e-7 of the largest flux on the balance "
-    "residual (measured: 1e-14 / 1e-11 on the unmodified tree)",
+    "lsq_linear (default tol 1e-10) is accepted within 1e-7 absolute on fractions and 1e-7 of the largest flux on the balance "
+    "residual (measured on the unmodified tree: <= 7.1e-9 on fractions over both lattices)",
     "mixing a scalar with an array argument is outside the documented input forms and is not explored",
     "psi_normalised / inside_lcfs of the example equilibrium are taken from the equilibrium object (C12 checks them)",
+    "a call of the real code that has not returned after 10 s of user CPU time (ITIMER_VIRTUAL; a 12-point profile needs < 1 s) "
+    "is recorded as 'does-not-return'; profiles/wrappers that contain such a lattice point are tried once, not once per representation",
 ]
 REQUIRED_CLASSES = (["entry:" + e for e in CORE + WRAPPERS] + ["repr:scalar"] + ["repr:" + r for r in REPS]
                     + ["donor:none", "donor:zero", "donor:pos", "donor-distinguishable", "donor-indistinguishable"]
                     + ["family:" + f for f in FAMILIES] + ["species:" + s for s in SPECIES] + ["lattice:A"]
                     + ["species-container:dict", "species-container:ndarray", "nel:zero", "nel:below-ne", "nel:above-ne",
                        "scalar-type:float", "scalar-type:float64", "scalar-type:int-te", "between-nodes", "outside-lcfs"])
-BUDGET_S = {"quick": 400, "thorough": 2400}   # caps only: ~15 s / ~2.5 min on 16 idle cores
+BUDGET_S = {"quick": 1200, "thorough": 3000}   # wall-clock caps only; CPU need: ~250 s quick, ~4500 s thorough (16 idle cores: ~20 s / ~5 min)
 CHUNK = 1
 
-TOL_X = 1e-8       # |fraction - closed form|: lsq_linear terminates on tol=1e-10 (relative cost change / optimality); DESIGN.md C09
+# |fraction - closed form|.  lsq_linear documents only termination tolerances (tol=1e-10 on the relative cost change and on the
+# scaled gradient), not an error bound on x; DESIGN.md's accuracy statement for the solver is the balance residual <= 1e-7 of the
+# largest flux.  An error dx on a dominant stage changes that flux by the fraction dx / x_dominant >= dx, so 1e-7 on x is the same
+# statement in the x norm.  Measured on the unmodified tree: <= 7.1e-9 over both lattices (1e-8 would leave no margin).
+TOL_X = 1e-7
 TOL_SUM = 1e-9     # |sum - 1|
 TOL_RANGE = 1e-12  # fractions in [-1e-12, 1 + 1e-12]
 TOL_BAL = 1e-7     # balance residual relative to the largest inter-stage flux (norm of the solved system)
@@ -93,7 +99,7 @@ TOL_REP = 1e-10    # representation / entry-point agreement, relative to the lar
 TOL_NEUT = 1e-9    # neutrality, relative to n_e
 DISTINCT = 1e-6    # reference with/without donor must differ by this much before 'donor-ignored' can be diagnosed
 
-CALL_CPU_LIMIT_S = 15.0   # user-CPU seconds allowed to one call of the real code (ITIMER_VIRTUAL: immune to machine load)
+CALL_CPU_LIMIT_S = 10.0   # user-CPU seconds allowed to one call of the real code (ITIMER_VIRTUAL: immune to machine load)
 
 _G = {}
 
@@ -205,7 +211,6 @@ class Ctx:
                 k = i * len(lte) + j
                 nd = None if self.dbase is None else self.dbase * WEIGHTS[k % 3]
                 self.pts.append(self.point(ne, te, nd))
-        self.kdonor = {}
 
     def point(self, ne, te, nd):
         R, np = _G["R"], _G["np"]
@@ -318,7 +323,7 @@ def _profile(ctx, entry, rep, res, shape):
     return out
 
 
-def check_fractions(ctx, entry, x, p, dens_scale=None):
+def check_fractions(ctx, entry, x, p):
     """x: observed fractional abundances (Z+1,) at lattice point p.  Returns True when x matches the closed form."""
     np, R = _G["np"], _G["R"]
     d = "donor=" + ctx.dcls
@@ -390,7 +395,8 @@ def check_neutral(ctx, entry, dens, qs, p, scls):
         ctx.V("%s:%s:species=%s:non-finite" % (entry, d, scls), "non-finite density at " + at, exp, dens)
         return False
     ok = True
-    if dens.min() < 0.0:
+    # same allowance as for the fractions (DESIGN.md: fractions in [-1e-12, 1 + 1e-12]), in density units
+    if dens.min() < -TOL_RANGE * max(ni, ne):
         ctx.V("%s:%s:negative-density" % (entry, d), "negative stage density at " + at, ">= 0", dens.min())
         ok = False
     charge = math.fsum(q * v for q, v in enumerate(dens))
@@ -437,6 +443,21 @@ def agree(ctx, sig, what, a, b, tol=TOL_REP):
         ctx.V(sig, what, b, a)
         return False
     return True
+
+
+def agree_entry(ctx, entry, what, got, from_fractional, ref, ref0, tol):
+    """differential oracle 'entry point == the same thing computed from fractional_abundance' (both are results of the real
+    code).  Inside the band where the closed-form tolerance cannot tell the balance with donor from the one without, a result
+    that sits on the no-donor reference while fractional_abundance sits on the with-donor one is the donor-ignored defect."""
+    np = _G["np"]
+    scale = max(float(np.max(np.abs(from_fractional))), 1e-300)
+    if float(np.max(np.abs(got - from_fractional))) <= tol * scale:
+        return True
+    if ctx.dcls == "pos" and 10.0 * float(np.max(np.abs(got - ref0))) < float(np.max(np.abs(got - ref))):
+        ctx.V("%s:donor-ignored" % entry, "result sits on the balance WITHOUT the CX donor (fractional_abundance does not); " + what, from_fractional, got)
+        return False
+    ctx.V("%s:differs-from-fractional_abundance" % entry, what, from_fractional, got)
+    return False
 
 
 # ---------------------------------------------------------------------------------------------------------------
@@ -606,6 +627,8 @@ def group_scalar(ctx):
         check_fractions(ctx, "fractional_abundance", base[k], p)
         ctx.check += float(ctx._zm(base[k]))
         for tname, conv_n, conv_t in (("float64", np.float64, np.float64), ("int-te", float, int)):
+            if tname == "int-te" and p["te"] != int(p["te"]):
+                continue                      # lattice B has a non-integral T_e
             kw = ctx.donor_kw(None if p["nd"] is None else conv_n(p["nd"]))
             r, err = ctx.call(ib.fractional_abundance, ctx.ad, ctx.el, conv_n(p["ne"]), conv_t(p["te"]), **kw)
             ctx.classes.append("scalar-type:" + tname)
@@ -629,8 +652,9 @@ def group_scalar(ctx):
                 continue
             good = check_density(ctx, "from_elementdensity", res[k], mult * p["ne"], p)
             if good and base[k] is not None:
-                agree(ctx, "from_elementdensity:differs-from-fractional_abundance", "densities != n_el * fractional_abundance at " + ctx.ptdesc(p),
-                      res[k], mult * p["ne"] * base[k])
+                nel = mult * p["ne"]
+                agree_entry(ctx, "from_elementdensity", "densities != n_el * fractional_abundance at " + ctx.ptdesc(p),
+                            res[k], nel * base[k], nel * p["x"], nel * p["x0"], TOL_REP)
     # match_plasma_neutrality, all species classes, both containers
     ctx.classes.append("entry:match_plasma_neutrality")
     for scls in SPECIES:
@@ -647,9 +671,9 @@ def group_scalar(ctx):
                 good = check_neutral(ctx, "match_plasma_neutrality", res[k], qs[k], p, scls)
                 zm = ctx._zm(base[k]) if base[k] is not None else 0.0
                 if good and zm > 0.0 and scls != "exceed":
-                    agree(ctx, "match_plasma_neutrality:differs-from-fractional_abundance",
-                          "densities != fractional_abundance * (n_e - q_species)/<z> at " + ctx.ptdesc(p),
-                          res[k], base[k] * max(p["ne"] - qs[k], 0.0) / zm, tol=1e-9)
+                    agree_entry(ctx, "match_plasma_neutrality", "densities != fractional_abundance * (n_e - q_species)/<z> at " + ctx.ptdesc(p),
+                                res[k], base[k] * max(p["ne"] - qs[k], 0.0) / zm, neutral_expect(ctx, p, qs[k])[0],
+                                neutral_expect(ctx, p, qs[k], p["x0"], p["zmean0"])[0], 1e-9)
 
 
 def _zm(x):
